@@ -118,6 +118,11 @@ func SourceFileFunction(env *Zlisp, name string, args []Sexp) (Sexp, error) {
 
 // helper for SourceFileFunction recursion
 func (env *Zlisp) sourceItem(item Sexp) error {
+	env.filterDepth++
+	defer func() { env.filterDepth-- }()
+	if env.filterDepth > maxDataDepth {
+		return fmt.Errorf("source: argument nested more than %d levels deep (self-referential?)", maxDataDepth)
+	}
 	switch t := item.(type) {
 	case *SexpArray:
 		for _, v := range t.Val {
